@@ -3,8 +3,9 @@
    traverse = Euler tour, reverse_traverse = its reversal, descendants = pre-order, children /
    reverse_children = the child list / its reversal, and consecutive edges of the tour are exactly
    one next_traverse / prev_traverse step apart (the two steps are inverse to each other). *)
-From IT Require Import Spec.
-From IT.proofs Require Import TraverseProofs.
+From IT Require Import Props.
+From IT.proofs Require Import TraverseProofs Reach Reach2.
+From IT.proofs Require ReprTree.
 
 Theorem C09_euler_steps : forall a t i e e', tree_in a t ->
   nth_error (euler t) i = Some e -> nth_error (euler t) (S i) = Some e' ->
@@ -21,9 +22,47 @@ Proof. exact children_kids. Qed.
 Theorem C09_reverse_children : forall a t, tree_in a t -> reverse_children (root t) a = Ok (rev (map root (kids t))).
 Proof. exact reverse_children_kids. Qed.
 
+(* ---- from EVERY live node of EVERY reachable arena (any valid history) ---- *)
+Theorem C09_ancestors : forall ops, valid_hist false init ops -> forall x, live (ar (reach ops)) x ->
+  exists l, ancestors x (ar (reach ops)) = Ok l /\ is_path (ar (reach ops)) parent x l /\ NoDup l /\
+            (length l <= length (live_ids (ar (reach ops))))%nat.
+Proof. exact reach_ancestors. Qed.
+Theorem C09_following_siblings : forall ops, valid_hist false init ops -> forall x, live (ar (reach ops)) x ->
+  exists l, following_siblings x (ar (reach ops)) = Ok l /\ is_path (ar (reach ops)) next x l /\ NoDup l /\
+            (length l <= length (live_ids (ar (reach ops))))%nat.
+Proof. exact reach_following. Qed.
+Theorem C09_preceding_siblings : forall ops, valid_hist false init ops -> forall x, live (ar (reach ops)) x ->
+  exists l, preceding_siblings x (ar (reach ops)) = Ok l /\ is_path (ar (reach ops)) prev x l /\ NoDup l /\
+            (length l <= length (live_ids (ar (reach ops))))%nat.
+Proof. exact reach_preceding. Qed.
+Theorem C09_predecessors : forall ops, valid_hist false init ops -> forall x, live (ar (reach ops)) x ->
+  exists l, predecessors x (ar (reach ops)) = Ok l /\ is_path (ar (reach ops)) pred_link x l /\ NoDup l.
+Proof. exact reach_predecessors. Qed.
+(* the subtree iterators: the rose tree of x is the abstract forest's tree of x (treeF), confined to it *)
+Theorem C09_subtree_iterators : forall ops F x, Repr (ar (reach ops)) F -> live (ar (reach ops)) x ->
+  let a := ar (reach ops) in
+  let t := ReprTree.treeF (length (nodes a)) F x in
+  tree_in a t /\ root t = x /\
+  traverse x a = Ok (euler t) /\ reverse_traverse x a = Ok (rev (euler t)) /\
+  descendants x a = Ok (ids t) /\ children x a = Ok (kidsf F x) /\ reverse_children x a = Ok (rev (kidsf F x)) /\
+  NoDup (euler t) /\ NoDup (ids t).
+Proof. exact reach_subtree_iterators. Qed.
+(* next_traverse and prev_traverse are inverse on all edges over live nodes, also across subtree boundaries *)
+Theorem C09_steps_inverse : forall ops, valid_hist false init ops -> forall e e',
+  (match e with Start x | End_ x => live (ar (reach ops)) x end) ->
+  (match e' with Start x | End_ x => live (ar (reach ops)) x end) ->
+  (next_traverse e (ar (reach ops)) = Ok (Some e') <-> prev_traverse e' (ar (reach ops)) = Ok (Some e)).
+Proof. exact reach_steps_inverse. Qed.
+
 Print Assumptions C09_euler_steps.
 Print Assumptions C09_traverse.
 Print Assumptions C09_reverse_traverse.
 Print Assumptions C09_descendants.
 Print Assumptions C09_children.
 Print Assumptions C09_reverse_children.
+Print Assumptions C09_ancestors.
+Print Assumptions C09_following_siblings.
+Print Assumptions C09_preceding_siblings.
+Print Assumptions C09_predecessors.
+Print Assumptions C09_subtree_iterators.
+Print Assumptions C09_steps_inverse.
